@@ -93,18 +93,58 @@ def _octet_leaves(t):
     return octs, other
 
 
+def _canon_octet_terms(t, _memo=None):
+    """rewrite every integer sub-term whose bits all come from ONE input octet (whatever route they took: a wider
+    struct.unpack word, shifts, masks, divmod) into an expression over that octet, so that differently spelled tests of
+    the same bits meet in the single-octet enumeration"""
+    from .bits import norm_bits, BitCtx
+    from .terms import mapterm
+    if _memo is None:
+        _memo = {}
+
+    def f(x):
+        if not isinstance(x, T) or x.ty == "bool" or x.k not in ("op", "unpacked", "un") or (x.k == "op" and x.a[0] not in (">>", "<<", "&", "|")):
+            return x
+        if x in _memo:
+            return _memo[x]
+        r = x
+        try:
+            bv = norm_bits(x, BitCtx())
+        except Exception:
+            bv = None
+        if bv is not None and bv.ext == 0 and len(bv.bits) <= 64:
+            src = {(b[1], b[2]) for b in bv.bits if isinstance(b, tuple) and b[0] == "d"}
+            plain = all(b in (0, 1) or (isinstance(b, tuple) and b[0] == "d" and isinstance(b[2], int)) for b in bv.bits)
+            if plain and len(src) == 1:
+                (root, k), = src
+                oct_ = T("idx", sym(root, ty="bytes"), C(k), ty="int")
+                acc = C(0)
+                for i, b in enumerate(bv.bits):
+                    if b == 1:
+                        acc = binop("|", acc, C(1 << i))
+                    elif isinstance(b, tuple):
+                        acc = binop("|", acc, binop("<<", binop("&", binop(">>", oct_, C(b[3])), C(1)), C(i)))
+                r = acc
+        _memo[x] = r
+        return r
+    return mapterm(f, t)
+
+
 def single_octet_entails(facts, goal):
     """Bit-level entailment by enumeration: when the goal speaks about one octet of the input only, it is decided over
     all 256 values of that octet against the facts that speak about that octet only (dropping the other facts is sound
     for proving).  Covers equivalent spellings of a mask/shift/divmod test that the linear procedure sees as
     unrelated atoms."""
     from .terms import evaluate, EvalError
+    memo = {}
+    goal = _canon_octet_terms(goal, memo)
     go, other = _octet_leaves(goal)
     if other or len(go) != 1:
         return False
     (root, k), = go
     sel = []
     for f in facts:
+        f = _canon_octet_terms(f, memo)
         fo, oth = _octet_leaves(f)
         if not oth and fo == go:
             sel.append(f)
@@ -952,6 +992,8 @@ def simplify(t, facts, _cache=None):
                     return B
                 if proved_under(c, binop("==", A, B)):
                     return B
+                if proved_under(un("not", c), binop("==", A, B)):
+                    return A
                 if A is not x.a[1] or B is not x.a[2]:
                     from .terms import gamma as _g
                     return _g(c, A, B)
